@@ -1,6 +1,6 @@
 #!/usr/bin/env python3
-"""Apply one of the repairs F1..F5 to the six tree files of a gobptree checkout (cwd).
-usage: apply_fix.py F1|F2|F3|F4|F5   (used once to produce the fix: commits; kept for the record)"""
+"""Apply one of the repairs F1..F6 to the six tree files of a gobptree checkout (cwd).
+usage: apply_fix.py F1|F2|F3|F4|F5|F6   (used once to produce the fix: commits; kept for the record)"""
 import sys
 which = sys.argv[1]
 files = {'int32': 'Int32', 'int64': 'Int64', 'uint32': 'Uint32', 'uint64': 'Uint64', 'string': 'String', 'comparable': 'Comparable'}
@@ -68,6 +68,11 @@ for low, cap in files.items():
 	// POST: child is too small
 """ % (le, node), 1)
         rep("\t\t// try left sibling\n\t\tleftSibling = i.children[index-1]\n\t\tleftSibling.lock()\n\t\tdefer leftSibling.unlock()\n\t\tif leftCount", "\t\t// try left sibling\n\t\tif leftCount", 1)
+    elif which == 'F6':
+        old = "key.Less(smallest)" if low == 'comparable' else "key < smallest"
+        new = "key.Less(parent.runts[0])" if low == 'comparable' else "key < parent.runts[0]"
+        rep("\t\tif index == 0 {\n\t\t\tif smallest := child.smallest(); %s {\n\t\t\t\t// preemptively update smallest value\n\t\t\t\tparent.runts[0] = key\n\t\t\t}\n\t\t}\n" % old,
+            "\t\tif index == 0 && %s {\n\t\t\t// The key becomes the smallest of this subtree. Only ever lower the\n\t\t\t// first runt; never raise it toward the smallest key of the child.\n\t\t\tparent.runts[0] = key\n\t\t}\n" % new, 2)
     else:
         sys.exit("unknown fix")
     open(p, 'w').write(s)
